@@ -73,7 +73,7 @@ func num(r *Rng) float64 {
 	}
 }
 
-var words = []string{"a", "b", "c", "a2", "é", "zz", "", "héllo", "B", "10", "x y", "k", "a\u0001b", "bell\a", "del\u007f", "tab\there", "nl\n", "q\"uote", "<a>&", "\u2028", "\U0001F600", "back\\slash", "\u0080"}
+var words = []string{"a", "b", "c", "a2", "é", "zz", "", "héllo", "B", "10", "x y", "k", "a\u0001b", "bell\a", "del\u007f", "tab\there", "nl\n", "q\"uote", "<a>&", "\u2028", "\U0001F600", "back\\slash", "\u0080", "20% off", "100%", "%s%d%%", "\\u003c", "a\\nb", "$HOME", "`tick`", "'single'"}
 
 func str(r *Rng) string {
 	if r.Chance(1, 5) {
@@ -563,6 +563,66 @@ func ConstEmbed(r *Rng) string {
 	}
 }
 
+// GuardFilters rely on && / || short-circuiting as a type guard.
+var GuardFilters = []string{
+	"objs[?type(k) == 'number' && abs(k) > `1`].s", "mixed[?type(k) == 'number' && k > `0`]", "strs[?type(@) == 'string' && starts_with(@, 'a')]", "mixeds[?type(k) == 'string' && starts_with(k, 'a')].k",
+	"nums[?type(@) == 'number' && ceil(@) > `2`]", "nested[?type(@) == 'array' && length(@) > `1`]", "mixed[?type(k) != 'number' || abs(k) > `1`]", "objs[?type(t) == 'array' && length(t) > `0`].s",
+	"mixeds[?type(k) == 'string' && length(k) > `1`]", "nested[?type(@) == 'number' && abs(@) > `3`]", "objs[?type(s) == 'string' && starts_with(s, 'a')].k", "objs[?type(k) == 'number' && floor(k) >= `0`]",
+}
+
+// Variant returns a near-duplicate spelling of an expression: white space inserted,
+// doubled or removed at a random position (also inside quoted sections, also right
+// after an escaped quote), a letter's case flipped, leading/trailing blanks. Two
+// spellings that differ lexically must never be confused by a cache key.
+func Variant(r *Rng, e string) string {
+	if len(e) == 0 {
+		return " "
+	}
+	switch r.Intn(7) {
+	case 0:
+		return " " + e
+	case 1:
+		return e + " "
+	case 2, 3:
+		k := r.Intn(len(e) + 1)
+		return e[:k] + r.Pick([]string{" ", "  ", "\t", "\n"}) + e[k:]
+	case 4:
+		// double or drop an existing blank
+		var idx []int
+		for i := 0; i < len(e); i++ {
+			if e[i] == ' ' {
+				idx = append(idx, i)
+			}
+		}
+		if len(idx) == 0 {
+			return e + "  "
+		}
+		k := idx[r.Intn(len(idx))]
+		if r.Chance(1, 2) {
+			return e[:k] + " " + e[k:]
+		}
+		return e[:k] + e[k+1:]
+	case 5:
+		k := r.Intn(len(e))
+		c := e[k]
+		if c >= 'a' && c <= 'z' {
+			return e[:k] + string(c-32) + e[k+1:]
+		}
+		if c >= 'A' && c <= 'Z' {
+			return e[:k] + string(c+32) + e[k+1:]
+		}
+		return e
+	default:
+		// a blank right after a backslash-escaped quote, if there is one
+		for _, q := range []string{"\\'", "\\\"", "\\`"} {
+			if k := strings.Index(e, q); k >= 0 {
+				return e[:k+2] + " " + e[k+2:]
+			}
+		}
+		return e + "\t"
+	}
+}
+
 // Chain draws a type-unaware postfix chain over the nested parts of the schema: index,
 // slice, list projection, flatten, filter, object projection, field, pipe — in every
 // order, e.g. grid[0][*].k, grid | [-1][*].t[], tree.kids[0].kids[*].name,
@@ -656,6 +716,9 @@ func Systematic() []string {
 		"grid[0][*].merge(@, `{}`)", "grid[0][*].t", "grid[0][*].[k]", "grid[0][*].{a: k}", "sort_by(grid[0], &k)", "sort_by(grid, &length(@))", "grid[0] | sort_by(@, &s)", "reverse(grid[0])", "grid[*].sort_by(@, &k)", "grid[*][*].t[]",
 		"z.{a: `1`}", "missing.[`1`, `2`]", "z.[`1`]", "objs[*].z.[`1`]", "objs[*].t.[`1`, `2`]", "nums[*].{x: 'c'}", "z | {a: `1`}", "z | [`1`]", "[`1`, `2`]", "{a: `1`}", "missing.{kind: `\"item\"`}", "objs[*].[`1`, `2`]",
 		"z.length(`[1]`)", "z | length(`[1]`)", "objs[*].length(`[1]`)", "z.[k]", "z.{a: k}", "z.[@]", "objs[*].z.{a: @}",
+		"objs[?type(k) == 'number' && abs(k) > `1`].s", "mixed[?type(k) == 'number' && k > `0`]", "strs[?type(@) == 'string' && starts_with(@, 'a')]", "mixeds[?type(k) == 'string' && starts_with(k, 'a')].k",
+		"nums[?type(@) == 'number' && ceil(@) > `2`]", "nested[?type(@) == 'array' && length(@) > `1`]", "mixed[?type(k) != 'number' || abs(k) > `1`]", "objs[?t && length(t) > `1`].k", "objs[?type(t) == 'array' && length(t) > `0`].s",
+		"mixeds[?type(k) == 'string' && length(k) > `1`]", "nested[?type(@) == 'number' && abs(@) > `3`]", "strs[?type(@) == 'string' && ends_with(@, 'a') && length(@) > `0`]",
 		"contains(s, `1`)", "sort_by(mixeds, &k)", "max_by(mixeds, &k)", "min_by(mixeds, &k)", "max_by(objs, &abs(s))", "min_by(objs, &abs(s))", "sort_by(objs, &abs(s))",
 		"min_by(objs, &s)", "max_by(objs, &s)", "min_by(mixed, &abs(k))", "max_by(mixed, &abs(k))", "objs[?abs(s)]", "objs[?k].abs(s)", "objs[*].abs(s)", "abs(s).*", "*.abs(@)", "o1.*.abs(@)",
 		"sort_by(mixeds, &abs(k))", "sort_by(strs, &abs(@))", "max(e)", "min(e)", "map(&abs(@), strs)", "nums[?abs(s)]", "[abs(s)]", "{a: abs(s)}", "abs(s) || nums", "abs(s) && nums", "!abs(s)", "abs(s) | nums", "abs(s) == nums", "nums[abs(s)]",
